@@ -894,3 +894,19 @@ Fixpoint wf_tgt_top (t : tgt) : bool :=
   | TCat ps => forallb wf_tgt_top ps
   | TSwitch w es => forallb (fun e => wf_tgt_top e && (tlen e <=? w)) es
   end.
+
+(* ---------- structural well-formedness of a netlist (what the emitter guarantees) ---------- *)
+Fixpoint nodupb (l : list net) : bool :=
+  match l with
+  | [] => true
+  | x :: r => negb (nmem x r) && nodupb r
+  end.
+(* cell outputs are never the constant nets and never listed twice; signals hold late, constant or cell-output nets;
+   every late net of the netlist is connected *)
+Definition wf_struct (g : netlist) : bool :=
+  forallb (fun n => negb (is_const n)) (cell_roots (cells g) 0)
+  && nodupb (cell_roots (cells g) 0)
+  && forallb (fun n => match n with NL _ => true | _ => is_const n || nmem n (cell_roots (cells g) 0) end)
+             (concat (sigs g))
+  && forallb (fun n => match n with NL l => match conn_of g l with [] => false | _ => true end | _ => true end)
+             (all_nets g).
